@@ -146,6 +146,23 @@ def decode(ints):
     return dict(status=0, nv=nv, vidx=vidx, meshes=meshes, nparams=nparams, nbar=nbar, ninv=ninv, nested=nested, outer=outer,
                 pairs=pairs, ro=ro, parts=parts, rest=rest)
 
+def first_diff_field(mi, ii):
+    """name of the first derived quantity on which two outputs differ"""
+    try:
+        A, B = decode(mi), decode(ii)
+    except Exception:
+        return "output layout"
+    if A.get("status") != B.get("status"): return "load status"
+    for k in ("nv", "vidx", "meshes", "nparams", "nbar", "ninv", "nested", "outer", "pairs", "ro", "parts"):
+        if A.get(k) != B.get(k):
+            if k == "meshes":
+                for q, (x, y) in enumerate(zip(A[k], B[k])):
+                    for f in ("cb", "iso", "out", "verts", "tidx", "tris"):
+                        if x[f] != y[f]: return "mesh %d %s" % (q, {"cb": "current_barrier flag", "iso": "isolated flag", "out": "outermost flag", "verts": "vertex references", "tidx": "triangle indices", "tris": "triangle vertices (orientation)"}[f])
+            return {"nv": "number of vertices", "vidx": "vertex indices", "nparams": "nb_parameters", "nbar": "nb_current_barrier_triangles", "ninv": "nb_invalid_vertices",
+                    "nested": "is_nested", "outer": "outermost domain", "pairs": "communicating mesh pairs", "ro": "relative_orientation", "parts": "isolated parts"}.get(k, k)
+    return "domain of probe points / interface orientations / saved .geom sections"
+
 def own_relations(case, ints, floats):
     """violations of the property's statement that can be read off the implementation output alone"""
     bad = []
@@ -227,7 +244,7 @@ def main(replay=None):
             add(m, rc["style"], rc["old"], rc.get("tag", "replay"), 0, has_cond=rc.get("has_cond", True), tokens=T,
                 cond_lines=rc.get("cond_lines"), cond_header=rc.get("cond_header", True), probes=[tuple(p) for p in rc.get("probes", [])])
     else:
-        nbase = 14 if quick else 60
+        nbase = 26 if quick else 90
         # the witness of nested_classification_correct_refuted, replayed on every run
         wm = models.inclusions(1.0, [((0.45, 0, 0), 0.3, 1.0), ((-0.45, 0.1, 0), 0.3, 0.33)], 1.0, level=0); wm["info"]["topology"] = "inclusions"
         add(wm, "1.1", False, "base:inclusions", nprobes=10)
@@ -291,8 +308,10 @@ def main(replay=None):
             if bad:
                 ck.violation("%s: %s (%s)" % (bad[0][0], bad[0][1], c["tag"]), "loaded geometry violates the property: %s; description kind %s" % (bad[0][1], c["tag"]), rep)
             else:
-                ck.violation("correspondence %s" % c["tag"].split(":")[0], "model and implementation disagree on a generated description (%s, syntax %s) at output position %d: model status %s, implementation status %s"
-                             % (c["tag"], c["style"], where, mi[:1], ii[:1]), rep)
+                fld = first_diff_field(mi, ii) if (mi == ii) is False and len(mf) == len(if_) else "float-valued accessors"
+                if mi == ii: fld = "sigma / sigma_inv / indicator / conductivity_jump / conductivities"
+                ck.violation("correspondence %s" % c["tag"].split(":")[0], "model and implementation disagree on a generated description (%s, syntax %s): first difference in %s (output position %d; model status %s, implementation status %s)"
+                             % (c["tag"], c["style"], fld, where, mi[:1], ii[:1]), rep)
             continue
         if mi[0] == 0: nontriv.add(c["mline"])
         # property relations on the (agreeing) output
